@@ -16,6 +16,7 @@ import (
 	"verif/mc/engines/e5"
 	"verif/mc/engines/e6"
 	"verif/mc/engines/e7"
+	"verif/mc/engines/e8"
 	"verif/mc/hx"
 )
 
@@ -130,6 +131,26 @@ func main() {
 			}
 		} else {
 			ctx.Run(*job, *tier)
+		}
+	case "e8":
+		dir := os.Getenv("VH_CLI_DIR")
+		if dir == "" {
+			fmt.Fprintln(os.Stderr, "VH_CLI_DIR not set")
+			os.Exit(3)
+		}
+		wd := dir + "/w" + strings.ReplaceAll(*shard, "/", "_")
+		os.MkdirAll(wd, 0o755)
+		ctx := &e8.Ctx{Rep: rep, Sh: sh, Deadline: deadline, Bin: dir + "/gmars", Dir: wd}
+		if _, err := os.Stat(dir + "/gmars-rand"); err == nil {
+			ctx.BinRand = dir + "/gmars-rand"
+		}
+		if *replay != "" {
+			if err := ctx.Replay(*replay); err != nil {
+				fmt.Fprintln(os.Stderr, err)
+				os.Exit(3)
+			}
+		} else {
+			ctx.Run(*tier)
 		}
 	default:
 		fmt.Fprintln(os.Stderr, "unknown engine", eng)
